@@ -340,6 +340,15 @@ Definition margmax (a : Mx) (ax : axis) (b : option Z) : Mx :=
 Definition is11 (a : Mx) : bool := Nat.eqb (rows_of a) 1 && Nat.eqb (cols_of a) 1.
 Definition same_shape (a b : Mx) : bool :=
   Nat.eqb (rows_of a) (rows_of b) && Nat.eqb (cols_of a) (cols_of b).
+(* dot's local inner_product(a, b): products = a * b; result = sum(products); when the products were
+   capped (products.bits < a.bits + b.bits) the sum is truncated to products.bits: result[:products.bits] *)
+Definition inner_product (x y : Mx) : Mx :=
+  let p := mmul x y in
+  let s := msum p AxNone None in
+  if bits p <? bits x + bits y
+  then MkMx (Z.min (bits s) (bits p)) (maxb s) [[trunc (bits p) (el s 0 0)]]
+  else s.
+
 (* x[:, :] is a WireVector when x is 1x1 and a Matrix otherwise.
    first 1x1: `second[:, :] * first[0, 0]`; second 1x1: `first[:, :] * second[:, :]` *)
 Definition mdot (a b : Mx) : option Mx :=
@@ -348,7 +357,7 @@ Definition mdot (a b : Mx) : option Mx :=
     else Some (mscal b (bits a) (el a 0 0))
   else if is11 b then Some (mscal a (bits b) (el b 0 0))
   else
-    let inner x y := if same_shape x y then Some (msum (mmul x y) AxNone None) else None in
+    let inner x y := if same_shape x y then Some (inner_product x y) else None in
     if Nat.eqb (rows_of a) 1 && Nat.eqb (rows_of b) 1 then inner a b
     else if Nat.eqb (rows_of a) 1 && Nat.eqb (cols_of b) 1 then inner a (mtranspose b)
     else if Nat.eqb (cols_of a) 1 && Nat.eqb (rows_of b) 1 then inner a (mtranspose b)
